@@ -35,6 +35,7 @@ def concrete_fn(name):
         'pow2': lambda a: (1 << a) if 0 <= a <= 4096 else _undef(),
         'band': lambda x, y: x & y, 'bor': lambda x, y: x | y,
         'blen': lambda b: len(b), 'sl': lambda b, lo, hi: b[lo:hi] if 0 <= lo <= hi <= len(b) else _undef(),
+        'sln': lambda b, lo, k: b[lo:lo + k] if 0 <= lo <= lo + k <= len(b) else _undef(),
         'cat': lambda a, b: a + b, 'be': lambda b: int.from_bytes(b, 'big'), 'le': lambda b: int.from_bytes(b, 'little'),
         'bat': lambda b, i: b[i] if 0 <= i < len(b) else _undef(),
         'tb': lambda v, k: v.to_bytes(k, 'big') if 0 <= k <= 512 and 0 <= v < (1 << (8 * k)) else _undef(),
